@@ -26,16 +26,20 @@ sys.path.insert(0, ROOT)
 
 
 def _task(args):
-    qual, combo_i, seg, timeout_ms = args
+    qual, combo_i, seg, timeout_ms, shard = args
     try:
         from contracts.registry import CONTRACTS
         from pyvc import verify
         c = CONTRACTS[qual]
-        r = verify.verify_contract(c, CONTRACTS, combo_filter=[combo_i], seg_filter=[seg], timeout_ms=timeout_ms)
-        r["task"] = [qual, combo_i, seg]
+        if isinstance(c, verify.Lemma):
+            r = verify.verify_contract(c, CONTRACTS, combo_filter=[combo_i], timeout_ms=timeout_ms)
+        else:
+            r = verify.verify_contract(c, CONTRACTS, combo_filter=[combo_i], seg_filter=[seg], timeout_ms=timeout_ms,
+                                       shard=shard)
+        r["task"] = [qual, combo_i, seg, shard]
         return r
     except Exception as e:  # checker error
-        return {"task": [qual, combo_i, seg], "error": f"{type(e).__name__}: {e}", "trace": traceback.format_exc(),
+        return {"task": [qual, combo_i, seg, shard], "error": f"{type(e).__name__}: {e}", "trace": traceback.format_exc(),
                 "obligations": [], "unsupported": [], "function": qual}
 
 
@@ -46,9 +50,11 @@ def plan_tasks(contracts, timeout_ms):
         alts = [verify.make_param(None, n, t) for n, t in c.params]
         ncombo = len(list(itertools.product(*alts)))
         nseg = len(c.cuts) + 1
+        k = getattr(c, "shards", 1) or 1
         for ci in range(ncombo):
             for seg in range(nseg):
-                tasks.append((c.qual, ci, seg, timeout_ms))
+                for sh in range(k):
+                    tasks.append((c.qual, ci, seg, timeout_ms, (sh, k) if k > 1 else None))
     return tasks
 
 
